@@ -178,6 +178,23 @@ SKELETON_TEXTS = GAP_TEXTS + [
     "<meta charset=utf-8>x", "<meta http-equiv=content-type content='text/html;charset=y'><p>", "<body><meta charset=x>a",
     "<dialog><search><details><summary>s</summary>d", "<image><keygen><isindex>x", "<menu><li>a</menu>b", "<center><dir><li>",
 ]
+# characters that are white space for Unicode but not for HTML, at every position where only HTML white space may
+# stay outside <body> (seeded change C06-m2)
+for _ws in ["\u00a0", "\u3000", "\u2003", "\x0b", "\u0085", "\u2028", "\u1680", "\ufeff"]:
+    SKELETON_TEXTS += ["<head></head>" + _ws + "<body>", "<head></head>" + _ws, "<head></head> " + _ws + " x", "<frameset></frameset>" + _ws,
+                       "<frameset>" + _ws + "</frameset>", "<frameset></frameset></html>" + _ws, "<html>" + _ws + "<head>", "x" [:0] + _ws + "<head>",
+                       "<!DOCTYPE html>" + _ws + "<html>", "<body></body>" + _ws, "<body></body></html>" + _ws + "<!--c-->", "<head>" + _ws + "</head>",
+                       "<table>" + _ws + "<tr>", "<table><tr>" + _ws + "<td>", "<select>" + _ws + "<option>", "<colgroup>" + _ws, "<table><colgroup>" + _ws + "<col>"]
+# the mirrored <selectedcontent> (rcdom's clone_an_option_into_selectedcontent): refills and fallback content
+# (seeded change C06-m3)
+SKELETON_TEXTS += [
+    "<select><button><selectedcontent></selectedcontent></button><option selected>a</option><option selected>b</option>",
+    "<select><button><selectedcontent>f</selectedcontent></button><option selected>a</option>x",
+    "<select><button><selectedcontent>f<b>g</b>h</selectedcontent></button><option selected>a<i>b</i>c</option><option selected>d</option>e",
+    "<select><selectedcontent>p</selectedcontent><option selected>q</option><option selected>r</option><option>s</option>",
+    "<select multiple><button><selectedcontent>f</selectedcontent></button><option selected>a</option><option selected>b</option>",
+    "<select><button><selectedcontent></selectedcontent></button><option selected>a</option></select><select><button><selectedcontent>z</selectedcontent></button><option selected>b</option><option selected>c</option>",
+]
 
 
 def chunkings(rng, s, tier):
